@@ -528,12 +528,14 @@ sqf::runtime::runtime::result sqf::runtime::runtime::execute(sqf::runtime::runti
             m_is_halt_requested = false;
             bool success;
             m_state = state::running;
+            // Without a script there is no line to step over
+            res = result::empty;
             std::optional<diagnostics::diag_info> dinf;
             while (!m_is_exit_requested && !m_is_halt_requested && !m_contexts.empty())
             {
-                if (!dinf.has_value())
+                if (!dinf.has_value() && !context_active().empty())
                 {
-                    auto next_inst = m_context_active->current_frame().peek(success);
+                    auto next_inst = context_active().current_frame().peek(success);
                     if (success)
                     {
                         dinf = { (*next_inst)->diag_info() };
@@ -546,10 +548,11 @@ sqf::runtime::runtime::result sqf::runtime::runtime::execute(sqf::runtime::runti
                 {
                     break;
                 }
-                if (dinf.has_value())
+                if (dinf.has_value() && !context_active().empty())
                 {
-                    auto next_inst = m_context_active->current_frame().peek(success);
-                    if (success && dinf.value() != (*next_inst)->diag_info())
+                    // The step ends with the first instruction that belongs to another line
+                    auto next_inst = context_active().current_frame().peek(success);
+                    if (success && (dinf->line != (*next_inst)->diag_info().line || !(dinf->path == (*next_inst)->diag_info().path)))
                     {
                         break;
                     }
